@@ -35,15 +35,3 @@ Qed.
 
 Theorem no_dangling_outputs_refuted : ~ no_dangling_outputs_full.
 Proof. unfold no_dangling_outputs_full. intros H. apply (f_equal (@List.length string)) in H. vm_compute in H. discriminate H. Qed.
-
-(* ppl_set_deterministic_timeout registers a timeout_exception: the handler that runs on expiry is the one
-   of timeout_exception, which resets the WALL-CLOCK watchdog and leaves the deterministic one armed *)
-Theorem timeout_registration_refuted : ~ timeout_registration_full.
-Proof. unfold timeout_registration_full. intros H. vm_compute in H. discriminate H. Qed.
-
-Theorem det_timeout_not_reset :
-  In ("ppl_set_deterministic_timeout", CT_class Timeout) timeout_registrations /\
-  forallb (fun ch => match handles ch (of_class Timeout) with
-                     | Some cl => negb (existsb (fun a => match a with ResetDetTimeout => true | _ => false end) (c_actions cl))
-                     | None => false end) nonempty_chains = true.
-Proof. split; [vm_compute; tauto | vm_compute; reflexivity]. Qed.
